@@ -65,6 +65,18 @@ static char *enc_strncpy(char *dst, const char *src, size_t n)
 #define strlen enc_strlen
 #define memset enc_memset
 #define strncpy enc_strncpy
+#define memmove enc_memmove
+/* memmove as a byte loop (not used by the current encoding.c; rewrites of its loops tend to use it, and CBMC's
+ * built-in model with a symbolic length does not scale) */
+static void *enc_memmove(void *dst, const void *src, size_t n)
+{
+	size_t k;
+	char *d = dst; const char *s_ = src;
+	__CPROVER_assert(n == 0 || (__CPROVER_r_ok(src, n) && __CPROVER_w_ok(dst, n)), "memmove: source readable and destination writable for n bytes");
+	if (d <= s_) for (k = 0; k < n; k++) d[k] = s_[k];
+	else for (k = n; k > 0; k--) d[k - 1] = s_[k - 1];
+	return dst;
+}
 
 #ifdef STUB_DOTIFY
 /* inside build_hostname's proof inline_dotify is replaced by its contract (proved in group
@@ -80,6 +92,7 @@ static int verif_stub_dotify(char *buf, size_t buflen);
 #undef strlen
 #undef memset
 #undef strncpy
+#undef memmove
 #ifdef STUB_DOTIFY
 #undef inline_dotify
 #define inline_dotify verif_real_inline_dotify
@@ -92,7 +105,11 @@ static int verif_stub_dotify(char *buf, size_t buflen);
 void h_dotify(void)
 {
 	size_t buflen = nondet_size_t();
+#ifdef VERIF_FALLBACK
+	__CPROVER_assume(buflen >= 1 && buflen <= 130);  /* bounded fallback (rewritten loop): up to two full labels */
+#else
 	__CPROVER_assume(buflen >= 1 && buflen <= 65536);
+#endif
 	char *buf = malloc(buflen);                       /* EXACTLY buflen bytes */
 	unsigned e = nondet_unsigned();
 	__CPROVER_assume((size_t)e + e / 57 < buflen);   /* precondition: the dotted string and its NUL fit (asserted at the call sites) */
